@@ -8,6 +8,7 @@ import time
 import copy
 import queue
 import threading
+import atexit
 import subprocess
 from collections import deque, defaultdict, Counter
 
@@ -31,10 +32,8 @@ class HarnessFailure(Exception):
 # template processes
 # --------------------------------------------------------------------------
 class Template:
-    def __init__(self, hashseed, repo, logdir, cpu=None):
+    def __init__(self, hashseed, repo, logdir):
         env = dict(os.environ)
-        if cpu is not None:
-            env["VERIF_CPU"] = str(cpu)
         env.update(
             PYTHONHASHSEED=str(hashseed),
             OMP_NUM_THREADS="1",
@@ -78,15 +77,47 @@ class Template:
 
 class Farm:
     """W worker threads, each owning one template at a time; jobs carry the hash
-    seed they need and workers prefer jobs of the seed they already serve."""
+    seed they need and workers prefer jobs of the seed they already serve.  Idle
+    templates are kept for the next call (they are pristine: they never execute
+    a library call themselves)."""
+
+    MAX_IDLE = 32
 
     def __init__(self, workers=None, logdir=None):
         self.workers = workers or int(os.environ.get("VERIF_WORKERS", os.cpu_count() or 4))
         self.repo = repo_path()
         self.logdir = logdir or os.path.join(VERIF, "logs")
         self.template_starts = 0
+        self.idle = defaultdict(list)
+        self.lock = threading.Lock()
+        atexit.register(self.close)
 
-    def run(self, jobs, on_result=None, deadline=None):
+    def close(self):
+        with self.lock:
+            tpls = [t for v in self.idle.values() for t in v]
+            self.idle.clear()
+        for t in tpls:
+            t.close()
+
+    def _get(self, hs, prefer_fresh=False):
+        with self.lock:
+            if self.idle.get(hs) and not prefer_fresh:
+                return self.idle[hs].pop()
+            self.template_starts += 1
+        return Template(hs, self.repo, self.logdir)
+
+    def _put(self, tpl):
+        drop = None
+        with self.lock:
+            self.idle[tpl.hashseed].append(tpl)
+            n = sum(len(v) for v in self.idle.values())
+            if n > self.MAX_IDLE:
+                hs = max(self.idle, key=lambda h: len(self.idle[h]))
+                drop = self.idle[hs].pop(0)
+        if drop:
+            drop.close()
+
+    def run(self, jobs, on_result=None, deadline=None, fresh_templates=False):
         """jobs: list of dicts with keys job, hashseed, spec, wall_limit.  Returns
         {job id: answer}."""
         by_hs = defaultdict(deque)
@@ -126,12 +157,13 @@ class Farm:
                         return
                     if tpl is None or tpl.hashseed != job["hashseed"]:
                         if tpl:
-                            tpl.close()
-                        tpl = Template(job["hashseed"], self.repo, self.logdir, cpu=widx)
-                        with lock:
-                            self.template_starts += 1
+                            self._put(tpl)
+                        tpl = self._get(job["hashseed"], fresh_templates)
                     try:
-                        ans = tpl.run({"job": job["job"], "spec": job["spec"], "wall_limit": job.get("wall_limit", 120)})
+                        msg = {"job": job["job"], "spec": job["spec"], "wall_limit": job.get("wall_limit", 120), "cpu": widx}
+                        if job.get("cmd"):
+                            msg = {"job": job["job"], "cmd": job["cmd"], "n": job.get("n")}
+                        ans = tpl.run(msg)
                     except HarnessFailure as e:
                         ans = {"job": job["job"], "status": "harness_error", "error": str(e)}
                         try:
@@ -147,7 +179,7 @@ class Farm:
                 failures.append(repr(e))
             finally:
                 if tpl:
-                    tpl.close()
+                    self._put(tpl)
 
         n = min(self.workers, max(1, len(jobs)))
         ths = [threading.Thread(target=worker, args=(w,), daemon=True) for w in range(n)]
